@@ -1,6 +1,201 @@
-(* C10 - placeholder while the proofs are written *)
-From Coq Require Import List ZArith NArith.
-From PC Require Import Base.Outcome Model.IndexTable Model.PrimCtor Model.PrimIter.
+(* C10 - item access, iteration and array views of a primitive agree, bound and unbound.
+   Statements only; proofs are in Proofs/PrimIter.v (and Proofs/PrimCtor.v for what
+   acceptance by a constructor gives).
+
+   [unbound p] / [bind p m matmap] are the primitive as seen by item access; [ilen] is
+   len(); [getitem] is __getitem__; [iter] is list(prim) through Python's legacy protocol
+   (call __getitem__ 0, 1, ... until IndexError; anything else propagates); [shapes] is the
+   bound sets' shapes() generator.  SPEC: [spec_item q i] reads item i off the array views by
+   position only ([pick] = explicit positions, [rows_at] = data rows at those indices).
+
+   One recorded finding is excluded by [no_void_polygons]: a polylist / polygons with an
+   EMPTY index and a non-empty vcount list of zeros (C10_iter_refuted). *)
+From Coq Require Import List ZArith NArith Lia.
+From PC Require Import Base.Outcome Model.IndexTable Model.PrimCtor Model.PrimIter
+  Proofs.IndexTable Proofs.PrimCtor Proofs.PrimIter.
 Import ListNotations.
-Example C10_placeholder : 1 = 1.
-Proof. reflexivity. Qed.
+
+(* len() is the number of shapes: rows of the index for triangles and lines, one per
+   vertex count for polylists and polygons *)
+Theorem C10_len_counts_shapes : forall p,
+  ilen (unbound p) = (if is_poly (p_kind p) then length (p_vcounts p) else p_nrows p) /\
+  forall m mm, ilen (bind p m mm) = ilen (unbound p).
+Proof. intro p. split; [reflexivity|]. intros. reflexivity. Qed.
+Print Assumptions C10_len_counts_shapes.
+
+(* iteration of an accepted unbound primitive yields exactly the len() items the SPEC
+   describes, in order, and ends (no exception) *)
+Theorem C10_iter_is_map_partial : forall kd ins mat s p, construct kd ins mat s = Ok p ->
+  no_void_polygons p ->
+  iter (unbound p) = Ok (map (spec_item (unbound p)) (seq 0 (ilen (unbound p)))).
+Proof. intros. apply iter_is_map; [eapply unbound_iwf; eauto|now apply guard_unbound]. Qed.
+Print Assumptions C10_iter_is_map_partial.
+
+(* for triangle and line sets no guard is needed *)
+Theorem C10_iter_is_map_triangles_lines : forall kd ins mat s p, construct kd ins mat s = Ok p ->
+  is_poly kd = false ->
+  iter (unbound p) = Ok (map (spec_item (unbound p)) (seq 0 (p_nrows p))) /\
+  forall m mm, shapes (bind p m mm) = Ok (map (spec_item (bind p m mm)) (seq 0 (p_nrows p))) /\
+               iter (bind p m mm) = Ok (map (spec_item (bind p m mm)) (seq 0 (p_nrows p))).
+Proof.
+  intros kd ins mat s p H Hk. destruct (accepted_shapes _ _ _ _ _ H) as [K _].
+  assert (G : no_void_polygons p) by (intros _ Hp; rewrite K, Hk in Hp; discriminate).
+  assert (L : forall q, ip_kind q = p_kind p -> ip_nrows q = p_nrows p -> ilen q = p_nrows p).
+  { intros q E1 E2. unfold ilen. rewrite E1, K, Hk. exact E2. }
+  split.
+  - rewrite <- (L (unbound p)) by reflexivity. eapply C10_iter_is_map_partial; eauto.
+  - intros m mm. rewrite <- (L (bind p m mm)) by reflexivity. split.
+    + apply shapes_is_map; [eapply bind_iwf; eauto|now apply guard_bind].
+    + apply iter_is_map; [eapply bind_iwf; eauto|now apply guard_bind].
+Qed.
+Print Assumptions C10_iter_is_map_triangles_lines.
+
+(* an empty primitive iterates to nothing *)
+Theorem C10_empty_iterates_to_nothing : forall kd ins mat s p, construct kd ins mat s = Ok p ->
+  no_void_polygons p -> p_nrows p = 0 ->
+  iter (unbound p) = Ok [] /\ forall m mm, shapes (bind p m mm) = Ok [] /\ iter (bind p m mm) = Ok [].
+Proof.
+  intros kd ins mat s p H G Z.
+  assert (L : forall q, guard q -> ip_nrows q = 0 -> ilen q = 0) by (intros q Gq Zq; auto).
+  split.
+  - rewrite (C10_iter_is_map_partial _ _ _ _ _ H G). rewrite (L _ (guard_unbound _ G) Z). reflexivity.
+  - intros m mm. pose proof (guard_bind p m mm G) as Gb. split.
+    + rewrite (shapes_is_map _ (bind_iwf _ _ _ _ _ m mm H) Gb). rewrite (L _ Gb Z). reflexivity.
+    + rewrite (iter_is_map _ (bind_iwf _ _ _ _ _ m mm H) Gb). rewrite (L _ Gb Z). reflexivity.
+Qed.
+Print Assumptions C10_empty_iterates_to_nothing.
+
+(* item access: prim[i] succeeds exactly for i < len() and returns the SPEC's item *)
+Theorem C10_item_fields : forall kd ins mat s p i, construct kd ins mat s = Ok p -> no_void_polygons p ->
+  (i < ilen (unbound p) -> getitem (unbound p) i = Ok (spec_item (unbound p) i)) /\
+  (forall it, getitem (unbound p) i = Ok it -> i < ilen (unbound p)) /\
+  getitem (unbound p) (ilen (unbound p)) = Raise PyIndexError.
+Proof.
+  intros kd ins mat s p i H G. split; [|split].
+  - intro Hi. apply getitem_spec; [eapply unbound_iwf; eauto|now apply guard_unbound|exact Hi].
+  - intros it. apply getitem_ok_lt.
+  - apply getitem_end.
+Qed.
+Print Assumptions C10_item_fields.
+
+(* the SPEC item, field by field and corner by corner: the c-th index of item i is the view's
+   entry at position start_i + c, and the c-th vertex is the data row that index selects *)
+Theorem C10_item_fields_pointwise : forall q i c,
+  let st := fst (spec_range q i) in let cnt := snd (spec_range q i) in
+  forall vdata vidx, ip_vertex q = Some (vdata, vidx) -> c < cnt ->
+  length (it_indices (spec_item q i)) = cnt /\
+  nth c (it_indices (spec_item q i)) 0%N = nth (st + c) vidx 0%N /\
+  nth c (it_vertices (spec_item q i)) [] = nth (N.to_nat (nth (st + c) vidx 0%N)) vdata [] /\
+  it_material (spec_item q i) = ip_material q /\
+  (forall ndata nidx', ip_normal q = Some (ndata, nidx') ->
+     exists rows, it_normals (spec_item q i) = NRows rows /\
+       nth c rows [] = nth (N.to_nat (nth (st + c) nidx' 0%N)) ndata []) /\
+  length (it_texcoords (spec_item q i)) = length (ip_texcoord q).
+Proof.
+  intros q i c st cnt vdata vidx Hv Hc. subst st cnt. unfold spec_item.
+  destruct (spec_range q i) as [st cnt]. simpl in *. rewrite Hv. simpl.
+  repeat split.
+  - apply pick_length.
+  - now apply pick_nth.
+  - rewrite rows_at_nth by (now rewrite pick_length). now rewrite pick_nth.
+  - intros ndata nidx' Hn. rewrite Hn. eexists. split; [destruct (ip_kind q); reflexivity|].
+    simpl. rewrite rows_at_nth by (now rewrite pick_length). now rewrite pick_nth.
+  - now rewrite map_length.
+Qed.
+Print Assumptions C10_item_fields_pointwise.
+
+(* polygon i covers exactly [start_i, start_i + vcount_i): the ranges start at 0, tile the
+   corner arrays without gap or overlap and end at the last corner; triangles and lines cover
+   [i*k, i*k + k) *)
+Theorem C10_polygon_ranges_tile : forall kd ins mat s p, construct kd ins mat s = Ok p ->
+  let q := unbound p in
+  (is_poly kd = true ->
+     fst (spec_range q 0) = 0 /\
+     (forall i, i < ilen q -> snd (spec_range q i) = nth i (p_vcounts p) 0 /\
+                              fst (spec_range q (S i)) = fst (spec_range q i) + snd (spec_range q i)) /\
+     fst (spec_range q (ilen q)) = p_nrows p) /\
+  (is_poly kd = false -> forall i, spec_range q i = (i * kind_k kd, kind_k kd)).
+Proof.
+  intros kd ins mat s p H q. destruct (accepted_shapes _ _ _ _ _ H) as [K [_ S]]. subst q.
+  unfold spec_range, ilen, unbound. simpl. rewrite K. split; intro Hp; rewrite Hp.
+  - simpl. split; [reflexivity|]. split.
+    + intros i Hi. simpl. split; [reflexivity|]. now apply sum_firstn_succ.
+    + rewrite firstn_all. auto.
+  - reflexivity.
+Qed.
+Print Assumptions C10_polygon_ranges_tile.
+
+(* an absent input shows up the same way on every item *)
+Theorem C10_absent_inputs : forall q i j,
+  (ip_normal q = None ->
+     it_normal_indices (spec_item q i) = it_normal_indices (spec_item q j) /\
+     it_normals (spec_item q i) = it_normals (spec_item q j) /\
+     (ip_kind q <> KTri -> it_normals (spec_item q i) = NNone)) /\
+  (ip_texcoord q = [] -> it_texcoords (spec_item q i) = [] /\ it_texcoord_indices (spec_item q i) = []).
+Proof.
+  intros q i j. unfold spec_item. destruct (spec_range q i) as [s1 c1]. destruct (spec_range q j) as [s2 c2].
+  split.
+  - intro Hn. rewrite Hn. simpl. destruct (ip_kind q); repeat split; auto; congruence.
+  - intro Ht. rewrite Ht. simpl. destruct (ip_kind q); auto.
+Qed.
+Print Assumptions C10_absent_inputs.
+
+(* bound primitives: shapes() and list(bound) yield the SPEC's items over the transformed
+   arrays, for any integer matrix and any material map; index arrays, texture coordinates and
+   the number of shapes are those of the unbound primitive and the material is the map's *)
+Theorem C10_bound_iter_is_map_partial : forall kd ins mat s p m mm, construct kd ins mat s = Ok p ->
+  no_void_polygons p ->
+  let b := bind p m mm in
+  shapes b = Ok (map (spec_item b) (seq 0 (ilen b))) /\
+  iter b = Ok (map (spec_item b) (seq 0 (ilen b))) /\
+  ilen b = ilen (unbound p) /\
+  option_map snd (ip_vertex b) = option_map snd (ip_vertex (unbound p)) /\
+  option_map fst (ip_vertex b) = option_map (fun v => map (xform_point m) (fst v)) (ip_vertex (unbound p)) /\
+  option_map fst (ip_normal b) = option_map (fun v => map (xform_dir m) (fst v)) (ip_normal (unbound p)) /\
+  ip_texcoord b = ip_texcoord (unbound p) /\
+  ip_material b = match p_material p with Some sy => lookup mm sy | None => None end.
+Proof.
+  intros kd ins mat s p m mm H G b. subst b. split; [|split].
+  - apply shapes_is_map; [eapply bind_iwf; eauto|now apply guard_bind].
+  - apply iter_is_map; [eapply bind_iwf; eauto|now apply guard_bind].
+  - unfold bind, unbound. simpl. repeat split; destruct (p_vertex p), (p_normal p); reflexivity.
+Qed.
+Print Assumptions C10_bound_iter_is_map_partial.
+
+(* ---- the finding that the guard excludes: two zero-corner polygons on an empty index are
+   accepted, len() is 2, and item access subscripts the absent views (TypeError) *)
+Definition void_ins := [Inp 0 VERTEX (Src [[0;0;0];[1;0;0];[0;1;0]]%Z 3)].
+Example C10_iter_refuted :
+  exists p, construct KPolylist void_ins None (SPolylist [] [0; 0]) = Ok p /\
+            ilen (unbound p) = 2 /\ iter (unbound p) = Raise PyTypeError /\ ~ no_void_polygons p.
+Proof.
+  eexists. split; [vm_compute; reflexivity|]. split; [reflexivity|]. split; [vm_compute; reflexivity|].
+  intro G. specialize (G eq_refl eq_refl). discriminate.
+Qed.
+
+(* ---- Non-vacuity: a polylist with normals and two texcoord sets, three polygons (one of
+   them a zero-corner polygon in the middle), bound with a rotation + translation *)
+Definition ex_v := Src [[0;0;0];[1;0;0];[0;1;0];[0;0;1]]%Z 3.
+Definition ex_n := Src [[0;0;1];[0;1;0]]%Z 3.
+Definition ex_t := Src [[0;0];[1;0];[0;1]]%Z 2.
+Definition ex_ins := [Inp 0 VERTEX ex_v; Inp 1 NORMAL ex_n; Inp 0 TEXCOORD ex_t; Inp 2 TEXCOORD ex_t].
+Definition ex_stream := SPolylist [0;0;2; 1;1;0; 2;0;1;   2;1;1; 1;0;2; 0;1;0; 2;0;0]%N [3; 0; 4].
+
+Example C10_nonvacuous :
+  exists p, construct KPolylist ex_ins (Some 7%N) ex_stream = Ok p /\ no_void_polygons p /\
+    ilen (unbound p) = 3 /\
+    option_map (map it_indices) (match iter (unbound p) with Ok l => Some l | _ => None end)
+      = Some [[0;1;2]; []; [2;1;0;2]]%N /\
+    option_map (map it_vertices)
+      (match shapes (bind p [[0;-1;0;5];[1;0;0;0];[0;0;1;-2]]%Z [(7, 9)]%N) with Ok l => Some l | _ => None end)
+      = Some [[[5;0;-2];[5;1;-2];[4;0;-2]]; []; [[4;0;-2];[5;1;-2];[5;0;-2];[4;0;-2]]]%Z /\
+    ip_material (bind p [[0;-1;0;5];[1;0;0;0];[0;0;1;-2]]%Z [(7, 9)]%N) = Some 9%N.
+Proof.
+  eexists. split; [vm_compute; reflexivity|]. split; [intros Z; vm_compute in Z; discriminate|].
+  vm_compute. repeat split.
+Qed.
+
+Example C10_empty_nonvacuous :
+  exists p, construct KTri ex_ins None (SFlat []) = Ok p /\ no_void_polygons p /\ p_nrows p = 0 /\
+            iter (unbound p) = Ok [] /\ getitem (unbound p) 0 = Raise PyIndexError.
+Proof. eexists. split; [vm_compute; reflexivity|]. split; [intros _ Hp; vm_compute in Hp; discriminate|]. vm_compute. repeat split. Qed.
